@@ -179,6 +179,10 @@ class C10:
         return _case(tier)
 
     def fixed_cases(self, tier, switches):
+        for e, ty in exprgen.sign_stress():
+            for ctx, tail in (("init", "def r: %s := %s\n" % (exprgen.TYPE_NAME[ty], e)), ("print", "print(%s)\n" % e)):
+                yield {"gen": "e2e", "src": exprgen.PRELUDE + tail, "ctx": ctx, "ty": ty, "annotate": False, "expr": e,
+                       "stress": True}
         it = ct.enumerate_specs()
         while True:
             chunk = list(itertools.islice(it, BATCH))
@@ -204,7 +208,7 @@ class C10:
         return case
 
     def check_e2e(self, worker, case, stats):
-        stats.inc("e2e")
+        stats.inc("e2e_sign_stress" if case.get("stress") else "e2e")
         src, ctx = case["src"], case["ctx"]
         r = worker.call({"op": "parse", "src": src})
         if "ast" not in r:
